@@ -39,7 +39,7 @@ impl Chooser {
         let c = if i < self.prefix.len() { self.prefix[i] } else { 0 };
         if (c as usize) >= n {
             // a different enabled set while replaying a prefix: never a verdict
-            eprintln!("MACHINERY: replay divergence at decision {i}: choice {c} of {n}; prefix {:?}", self.prefix);
+            println!("MACHINERY: replay divergence at decision {i}: choice {c} of {n}; prefix {:?}", self.prefix);
             std::process::exit(2);
         }
         self.taken.push(c);
@@ -58,7 +58,7 @@ impl Chooser {
     }
     pub fn set_width(&mut self, idx: usize, n: usize) {
         if (self.taken[idx] as usize) >= n.max(1) {
-            eprintln!("MACHINERY: replay divergence at deferred decision {idx}: choice {} of {n}; prefix {:?}", self.taken[idx], self.prefix);
+            println!("MACHINERY: replay divergence at deferred decision {idx}: choice {} of {n}; prefix {:?}", self.taken[idx], self.prefix);
             std::process::exit(2);
         }
         self.widths[idx] = n.max(1) as u32;
